@@ -97,6 +97,11 @@ Proof.
       injection H as <-; cbn; rewrite ?snot_ok; now destruct (dbit ν c).
 Qed.
 
+Lemma dbit_pos ν a : dbit ν (SL false a) = datom ν a.
+Proof. cbn. now destruct (datom ν a). Qed.
+
+Ltac dbit_simpl := cbn [dbit datom v_raw v_arg]; rewrite ?xorb_false_l.
+
 (** ** Symbolic values *)
 
 Definition bvec := N -> option sbit.
